@@ -209,6 +209,8 @@ def mon_c02(ex, info, col):
             and not any(r.get("absence") or r.get("absence_after") for r in list(info.workers.values()) + list(info.facilities.values())):
         flip = bool(ex.opts.get("backward")) and bool(ex.opts.get("rev", True))
         for tn in info.tnames:
+            if info.is_auto(tn) and ex.opts.get("auto_abs"):
+                continue  # (with the flag set an automatic task also progressed in the deleted steps: the surviving entries do not show that progress step by step)
             task = ex.m.byname[tn]
             sl = [int(s) for s in task.state_record_list]
             rl = list(task.remaining_work_amount_record_list)
